@@ -164,6 +164,35 @@ def relations(rng, tier, rpt):
         n += 1
         if a.PublicKey().ToAddress() != b.PublicKey().ToAddress() or a.PublicKey().ToExtended() != b.PublicKey().ToExtended():
             rep("BIP-44 watch-only account derives a different address", seed.hex(), b.PublicKey().ToAddress(), a.PublicKey().ToAddress())
+    # wrapper level: a public-only account object (every BIP-44 family) refuses a hardened address index with the key error, derives
+    # non-hardened ones like the private side, and never yields a private key
+    from bip_utils import Bip49, Bip84, Bip86, Cip1852, Bip49Coins, Bip84Coins, Bip86Coins, Cip1852Coins, Bip32KeyIndex
+    for cls_, coin_ in ((Bip44, Bip44Coins.BITCOIN), (Bip44, Bip44Coins.NEO), (Bip49, Bip49Coins.LITECOIN), (Bip84, Bip84Coins.BITCOIN), (Bip86, Bip86Coins.BITCOIN),
+                        (Cip1852, Cip1852Coins.CARDANO_ICARUS), (Bip44, Bip44Coins.CARDANO_BYRON_ICARUS)):
+        seed = rand_seed(rng)
+        acc = cls_.FromSeed(seed, coin_).Purpose().Coin().Account(rng.randrange(3))
+        w = cls_.FromExtendedKey(acc.PublicKey().ToExtended(), coin_)
+        wch = w.Change(Bip44Changes.CHAIN_EXT)
+        n += 1
+        for hidx in (Bip32KeyIndex.HardenIndex(0), Bip32KeyIndex.HardenIndex(rng.getrandbits(20)), 2**31 + 5, 2**32 - 1):
+            try:
+                got = wch.AddressIndex(hidx)
+                rep("%s[%s]: a hardened address index is derived from a public-only object instead of being refused" % (cls_.__name__, coin_.name),
+                    "%s idx=%s" % (seed.hex(), int(hidx)), got.PublicKey().RawCompressed().ToHex(), "Bip32KeyError")
+            except Bip32KeyError:
+                pass
+            except Exception as ex:  # noqa
+                rep("%s[%s]: hardened address index on a public-only object raises the wrong error" % (cls_.__name__, coin_.name), "%s idx=%s" % (seed.hex(), int(hidx)), type(ex).__name__, "Bip32KeyError")
+        ix = rng.getrandbits(20)
+        a = acc.Change(Bip44Changes.CHAIN_EXT).AddressIndex(ix)
+        b = wch.AddressIndex(ix)
+        if a.PublicKey().RawCompressed().ToBytes() != b.PublicKey().RawCompressed().ToBytes() or int(b.Bip32Object().Index()) != ix:
+            rep("%s[%s]: watch-only account derives a different address-level key" % (cls_.__name__, coin_.name), "%s idx=%d" % (seed.hex(), ix), b.PublicKey().RawCompressed().ToHex(), a.PublicKey().RawCompressed().ToHex())
+        try:
+            b.PrivateKey()
+            rep("%s[%s]: public-only object yields a private key" % (cls_.__name__, coin_.name), seed.hex(), "ok", "Bip32KeyError")
+        except Bip32KeyError:
+            pass
     # conversion after use: an object converted to public-only behaves as public-only whatever was derived from it before
     for i in range(20 if tier == "quick" else 600):
         name = list(schemes)[i % len(schemes)]
